@@ -18,9 +18,9 @@ import (
 	"encoding/binary"
 	"encoding/hex"
 	"fmt"
-	"math"
 	"go/token"
 	"go/types"
+	"math"
 	"strings"
 )
 
